@@ -36,7 +36,8 @@ def run_canary(cid, name, edits, runs, repo="/repo", extra_env=None):
         env["PYTHONDONTWRITEBYTECODE"] = "1"
         env.update(extra_env or {})
         t0 = time.time()
-        cmd = [sys.executable, "-m", "sim.runner", cid, "--no-selftest", "--no-evidence"]
+        cmd = [sys.executable, "-m", "sim.runner", cid, "--no-selftest", "--no-evidence",
+               "--first", "--no-minimise"]
         if runs:
             cmd += ["--runs", str(runs)]
         p = subprocess.run(cmd, cwd=VERIF, env=env, capture_output=True, text=True, timeout=1800)
